@@ -32,8 +32,11 @@ import contextlib
 import copy
 import gc
 import io
+import json
+import os
 import random as _random
 import signal
+import sys
 import tracemalloc
 
 from .. import common, fx
@@ -571,10 +574,88 @@ DISTINCT_TEMPLATES = ['%d+1', 'foo%d', 'COUNTIF(lista,">%d")', '"s%d"&va', 'SUM(
                       'NOSUCH%d(1)', '%d+', 'va+%d', 'AVERAGEIF(lista,"<="&%d)', 'DATEVALUE("2020-01-%d")', 'A%d+1']
 
 
+# --------------------------------------------------------------------------- (e) order: pristine processes
+
+_pristine = [None]
+
+
+def pristine(job):
+    """the records of job['probe'] after job['first'], evaluated in a process that has seen nothing else (harness/pristine.py)"""
+    import subprocess
+    if _pristine[0] is None or _pristine[0].poll() is not None:
+        pr = subprocess.Popen([sys.executable, '-m', 'harness.pristine'], cwd=common.VERIF, env=dict(os.environ),
+                              stdin=subprocess.PIPE, stdout=subprocess.PIPE, stderr=subprocess.DEVNULL)
+        ready = pr.stdout.readline()
+        if not ready.startswith(b'READY'):
+            raise RuntimeError('the pristine-process server did not start: %r' % ready)
+        _pristine[0] = pr
+    pr = _pristine[0]
+    pr.stdin.write((json.dumps(job) + '\n').encode('utf-8'))
+    pr.stdin.flush()
+    ans = json.loads(pr.stdout.readline().decode('utf-8'))
+    if 'crash' in ans:
+        raise RuntimeError('pristine evaluation crashed: %s' % ans['crash'])
+    return ans['records']
+
+
+ORDER_NUMS = ['1000', '1999', '48', '3', '0.5', '-2', '12', '3888', '255', '16', '7.25', '100', '0', '1', '2']
+ORDER_TEXTS = ['"abc"', '"Hello World"', '"2020-01-15"', '"a,b"', '"12"', '""', '"x"', '"2021-03-01"', '"FF"', '"MCMXCIX"', '"M"', '"3+4i"']
+
+
+def order_batches(rng, n_batches):
+    """-> cases: every registered (deterministic) function called on one argument list (`first`) and then on another (`probe`)"""
+    hotxlfp, _ = _hot()
+    from hotxlfp import formulas
+    names = [x for x in formulas.supported() if x not in NONDET]
+    out = []
+    for _ in range(n_batches):
+        first, probe = [], []
+        text = rng.random() < 0.35
+        pool = ORDER_TEXTS if text else ORDER_NUMS
+        k = rng.choice([1, 1, 2, 2, 3])
+        for nm in names:
+            a = [rng.choice(pool)] + [rng.choice(ORDER_NUMS + ORDER_TEXTS[:3]) for _ in range(k - 1)]
+            b = [rng.choice(pool)] + a[1:]
+            if rng.random() < 0.3:
+                b[1:] = [rng.choice(ORDER_NUMS) for _ in b[1:]]
+            first.append('%s(%s)' % (nm, ','.join(a)))
+            probe.append('%s(%s)' % (nm, ','.join(b)))
+        out.append({'kind': 'order', 'first': first, 'probe': probe})
+    return out
+
+
+def run_order(c):
+    alone = pristine({'first': [], 'probe': c['probe']})
+    after = pristine({'first': c['first'], 'probe': c['probe']})
+    findings = []
+    for f1, f, r0, r1 in zip(c['first'], c['probe'], alone, after):
+        if r0 != r1:
+            # the smallest history: the formula's own predecessor alone
+            a2 = pristine({'first': [], 'probe': [f]})[0]
+            b2 = pristine({'first': [f1], 'probe': [f]})[0]
+            if a2 != b2:
+                findings.append('in a process that has evaluated nothing, %r gives %s; in a process that has evaluated %r before, it gives %s' % (
+                    f, show_wire(a2), f1, show_wire(b2)))
+            else:
+                findings.append('in a process that has evaluated nothing but the %d formulas before it, %r gives %s; alone in a fresh process '
+                                'it gives %s (history: %r ...)' % (len(c['first']), f, show_wire(r1), show_wire(r0), c['first'][:3]))
+            if len(findings) >= 3:
+                break
+    return {'findings': findings, 'n': len(c['probe']), 'values': sum(1 for r in alone if r[2] is None)}
+
+
+def show_wire(r):
+    return '{result: %s (%s), error: %s}' % (r[1], r[0], r[2])
+
+
 def cases(rng, ctx):
     thorough = ctx['tier'] == 'thorough'
     scale = ctx['scale']
     out = []
+    # (e) order (first: the pristine server starts before this process has evaluated much)
+    out += order_batches(rng, (400 if thorough else 40) * scale)
+    out.append({'kind': 'order', 'first': ['ROMAN(1000)', 'ROMAN(3000,2)', 'SUM(1,2)', 'UPPER("a")', 'DATE(2020,1,2)'],
+                'probe': ['ROMAN(1999)', 'ROMAN(3888,2)', 'SUM(1,2,3)', 'UPPER("b")', 'DATE(2021,3,4)']})
     # (a) histories
     n_model, n_wild = (60, 140) if thorough else (5 * scale, 7 * scale)
     for i in range(n_model + n_wild):
@@ -1297,6 +1378,8 @@ def impl(c):
             return run_immut(c)
         if k in ('memory', 'memory-distinct'):
             return run_memory(c)
+        if k == 'order':
+            return run_order(c)
         raise ValueError(k)
     finally:
         reset_singletons()
@@ -1331,6 +1414,10 @@ def oracle(c, ans):
         if ans['findings']:
             return '[host-value immutability] ' + ans['findings'][0]
         return None
+    if k == 'order':
+        if ans['findings']:
+            return '[history-independence across the process] ' + ans['findings'][0]
+        return None
     if k in ('memory', 'memory-distinct'):
         what = repr(c['f']) if k == 'memory' else 'distinct formulas %r' % c['template']
         if ans['growing']:
@@ -1351,6 +1438,8 @@ def nontrivial(c, ans):
         return ans['printed']['on'] > 0
     if k in ('immut-fn', 'immut-ops'):
         return ans['n'] > 0
+    if k == 'order':
+        return ans['values'] > 0
     return True
 
 
@@ -1369,6 +1458,8 @@ def weight(c, ans):
         return (ans['n'], ans['n'], 0)
     if k in ('memory', 'memory-distinct'):
         return (430, 1, 0)
+    if k == 'order':
+        return (3 * ans['n'], ans['n'], 0)
     return None
 
 
